@@ -113,6 +113,8 @@ def run(ctx):
                 else:
                     ctx.bad('R4', what, eb[0].defpath, 'encoder: %s ; decoder: %s - the two trees no longer describe the same code' % (str(a)[:200], str(b)[:200]), key=k, loc=rules.loc(db[0]))
     c09.check_huffman(ctx, F)
+    import props.C05 as c05
+    c05.check_forwarding(ctx, F, traits=('symbol::EncoderCodebook', 'symbol::DecoderCodebook'), floor=3, what='symbol')   # `&C` code books are the same code book
     from vlib import errdisc
     errdisc.check(ctx, F, floor=25, scope=lambda b: b.defpath.startswith(('symbol::', '<symbol::')) or '::symbol::' in b.defpath, what='symbol module')   # prefix/suffix adaptors pass the rejection on
     # entry bounds of the unchecked walks (same rule instances as C20)
